@@ -286,13 +286,53 @@ var visibleRunes = []rune("abcdefgxyzmmm[[0123456789 ;:-_=#|" + "éñß→█▏
 
 var colours = []string{"\x1b[31m", "\x1b[0m", "\x1b[1;32m", "\x1b[38;5;208m", "\x1b[m", "\x1b[4m", "\x1b[0;1;7m"}
 
+// Colour sequences have no maximal length (ESC [ (digit | ;)* m): 24-bit colours, stacked
+// attributes, foreground + background.  None of them is produced by rare itself; they arrive
+// in keys extracted from input coloured by other tools.
+var longColours = []string{
+	"\x1b[38;2;255;128;64m",                          // 24-bit foreground (18 runes)
+	"\x1b[1;4;38;5;196m",                             // stacked attributes + 256 colour (15)
+	"\x1b[48;2;0;0;0m",                               // 24-bit background (13)
+	"\x1b[0;1;38;5;46m",                              // (14)
+	"\x1b[38;2;255;255;255;48;2;100;100;100m",        // foreground + background (37)
+	"\x1b[0;1;3;4;7;9;38;2;12;34;56;48;2;78;90;123m", // (42)
+}
+
+// sgrOfLen builds a complete colour sequence of exactly n runes (n >= 3) out of realistic
+// parameters (numbers 0..255 separated by ';').
+func sgrOfLen(r *rand.Rand, n int) string {
+	var sb strings.Builder
+	sb.WriteString("\x1b[")
+	for sb.Len() < n-1 {
+		if sb.Len() > 2 && r.Intn(6) != 0 {
+			sb.WriteByte(';')
+		}
+		sb.WriteString(fmt.Sprint([]int{0, 1, 2, 4, 5, 7, 38, 48, 64, 128, 196, 255}[r.Intn(12)]))
+	}
+	return sb.String()[:n-1] + "m"
+}
+
+// longMode: probability that a colour sequence of the text being generated is a long one
+// (set per history / call; 0 keeps the sequences rare itself emits).
+var longMode float64
+
+func pickColour(r *rand.Rand) string {
+	if longMode > 0 && r.Float64() < longMode {
+		if r.Intn(2) == 0 {
+			return longColours[r.Intn(len(longColours))]
+		}
+		return sgrOfLen(r, 3+r.Intn(70))
+	}
+	return colours[r.Intn(len(colours))]
+}
+
 // genText builds a well-formed text with exactly vis visible runes; colour sequences are
 // placed before, between and after them with probability pc per gap.
 func genText(r *rand.Rand, vis int, pc float64) string {
 	var sb strings.Builder
 	gap := func() {
 		for r.Float64() < pc {
-			sb.WriteString(colours[r.Intn(len(colours))])
+			sb.WriteString(pickColour(r))
 		}
 	}
 	for i := 0; i < vis; i++ {
@@ -346,6 +386,11 @@ func genHistory(r *rand.Rand, cols int, trim bool, n int, maxLine int) []update 
 	steps := make([]update, 0, n)
 	cur, top := 0, -1
 	pc := []float64{0, 0.1, 0.35}[r.Intn(3)]
+	longMode = []float64{0, 0, 0.3, 1}[r.Intn(4)]
+	defer func() { longMode = 0 }()
+	if longMode == 1 && pc > 0.1 {
+		pc = 0.1 // keep the texts of a comparable size
+	}
 	for i := 0; i < n; i++ {
 		var line int
 		switch r.Intn(8) {
@@ -387,6 +432,7 @@ func c20Trace(args []string) error {
 	nbuf := fs.Int("buf", 100, "number of buffered-writer histories")
 	ntrim := fs.Int("trim", 2000, "number of random WriteLineNoWrap calls")
 	exh := fs.Int("exh", 4, "exhaustive WriteLineNoWrap: all texts of up to this many tokens, widths 1..5")
+	sgr := fs.Int("sgr", 48, "WriteLineNoWrap with colour sequences of every length 3..sgr")
 	fs.Parse(args)
 	w, err := vh.NewNdWriter(*out)
 	if err != nil {
@@ -504,11 +550,33 @@ func c20Trace(args []string) error {
 		}
 	}
 	rec2("", *exh)
+	// every colour-sequence length 3..sgr: one sequence before / inside / after a little text,
+	// and two sequences of different lengths, widths 1..5
+	for n := 3; n <= *sgr; n++ {
+		s1, s2 := sgrOfLen(r, n), sgrOfLen(r, 3+(n*7)%(*sgr-2))
+		for _, pre := range []string{"", "a", "éb"} {
+			for _, post := range []string{"", "m", "cde"} {
+				for c := 1; c <= 5; c++ {
+					trimCall(pre+s1+post, c, true)
+				}
+			}
+		}
+		for c := 1; c <= 5; c++ {
+			trimCall("a"+s1+"b"+s2+"cd", c, true)
+			trimCall(s2+s1+"→m"+s1, c, true)
+		}
+	}
 	for i := 0; i < *ntrim; i++ {
 		cols := pickCols(r)
-		text := genText(r, pickVis(r, cols, true), []float64{0, 0.2, 0.5}[r.Intn(3)])
+		longMode = []float64{0, 0.3, 1}[r.Intn(3)]
+		pc := []float64{0, 0.2, 0.5}[r.Intn(3)]
+		if longMode == 1 && pc > 0.2 {
+			pc = 0.2
+		}
+		text := genText(r, pickVis(r, cols, true), pc)
 		trimCall(text, cols, r.Intn(8) != 0)
 	}
+	longMode = 0
 	w.Close()
 	vh.WriteJSON(*stats, M{"runs": rec.t, "live": nlive, "buffered": nbufDone, "trimcalls": ntrimDone,
 		"events": w.N, "distinct_nontrivial": nontrivial, "max_history": maxLen, "max_line": maxTop, "samples": samples})
